@@ -1,11 +1,106 @@
 """Executor for the method-description layer (C18).  A line describes a function; the executor builds it (code objects
 are compiled once per distinct parameter list and shared between functions that differ only in their defaults),
 describes it with fromFunction / fromMethod / an interface definition / an ABC-style wrapper, and prints: the real code
-object's fields, zope.interface's description, and what inspect.signature says about the same callable."""
+object's fields, zope.interface's description, and what inspect.signature says about the same callable.
+
+Default VALUES.  The statement quantifies over every function, hence over every kind of object a default can be.  A line
+may name, per positional default, one value kind of `VALUE_KINDS` (otherwise the default is an opaque object whose repr
+is its id): falsy and ordinary atoms, strings made of the characters the rendering itself uses (`%`, `{}`, `, `, `=`,
+`*`, quotes), containers, tuples of every length and tuple subclasses, and objects whose `repr` is the only thing that
+may be asked of them.  `repr(value)` of every default is handed to the model next to the value's id (the model's
+`reprOf`), so the model renders the very same values."""
+import collections
 import inspect
 import types
 
 _CODE = {}
+
+
+class _Repr:
+    """an object that renders as `text` and as nothing else: str() / format() give other answers"""
+    def __init__(self, text):
+        self.text = text
+
+    def __repr__(self):
+        return self.text
+
+    def __str__(self):
+        return "STR-NOT-REPR"
+
+    def __format__(self, spec):
+        return "FORMAT-NOT-REPR"
+
+
+class _ReprOnly(_Repr):
+    """... and one that refuses every other question (truth, equality, hash, length, iteration, str, format)"""
+    def _no(self, *a, **k):
+        raise RuntimeError("a default value is only ever rendered with repr()")
+    __bool__ = __len__ = __iter__ = __eq__ = __ne__ = __hash__ = __str__ = __format__ = __getitem__ = _no
+
+
+class _StrSub(str):
+    def __repr__(self):
+        return "StrSub<%s>" % str.__str__(self)
+
+
+class _IntSub(int):
+    def __repr__(self):
+        return "IntSub<%d>" % int(self)
+
+
+class _TupleSub(tuple):
+    pass
+
+
+class _TupleSubRepr(tuple):
+    def __repr__(self):
+        return "TupleSub<%s>" % ", ".join(map(repr, self))
+
+
+class _ListSub(list):
+    def __repr__(self):
+        return "ListSub%s" % list.__repr__(self)
+
+
+class _DictSub(dict):
+    pass
+
+
+_Point = collections.namedtuple("Point", "x y")
+_One = collections.namedtuple("One", "only")
+_Nil = collections.namedtuple("Nil", "")
+
+# name -> (class of value, factory); the generator (props/c18.py) draws the names
+VALUE_KINDS = collections.OrderedDict([
+    # falsy atoms and ordinary atoms
+    ("none", ("atom", lambda: None)), ("zero", ("atom", lambda: 0)), ("false", ("atom", lambda: False)),
+    ("true", ("atom", lambda: True)), ("int", ("atom", lambda: 42)), ("neg", ("atom", lambda: -7)),
+    ("big", ("atom", lambda: 10 ** 30)), ("float", ("atom", lambda: 1.5)), ("nan", ("atom", lambda: float("nan"))),
+    ("cplx", ("atom", lambda: 2j)), ("dots", ("atom", lambda: Ellipsis)), ("bytes", ("atom", lambda: b"z%s")),
+    ("cls", ("atom", lambda: int)), ("builtin", ("atom", lambda: len)), ("range", ("atom", lambda: range(3))),
+    # strings: empty, and made of the characters the rendering itself uses
+    ("s_empty", ("string", lambda: "")), ("s_plain", ("string", lambda: "x")), ("s_pct_s", ("string", lambda: "%s")),
+    ("s_pct_r", ("string", lambda: "%r=%(a)s %d")), ("s_pct", ("string", lambda: "100%")), ("s_brace", ("string", lambda: "{} {0} {x!r}")),
+    ("s_sep", ("string", lambda: "x, y=2, *z")), ("s_quote", ("string", lambda: "it's")), ("s_dquote", ("string", lambda: 'say "hi" it\'s')),
+    ("s_bslash", ("string", lambda: "a\\b\nc\t")), ("s_paren", ("string", lambda: "(1,)")), ("s_uni", ("string", lambda: "caf\u00e9 \u4e2d")),
+    # containers
+    ("l_empty", ("container", lambda: [])), ("l_one", ("container", lambda: [1])), ("l_two", ("container", lambda: [1, "b"])),
+    ("d_empty", ("container", lambda: {})), ("d_one", ("container", lambda: {"a": 1})), ("d_name", ("container", lambda: {"q0": 1, "p0": 2})),
+    ("set_empty", ("container", lambda: set())), ("fset", ("container", lambda: frozenset([3]))), ("l_sub", ("container", lambda: _ListSub([1, 2]))),
+    ("d_sub", ("container", lambda: _DictSub(a=1))), ("l_tuple", ("container", lambda: [(1,), ()])),
+    # tuples of every length, nested, and tuple subclasses
+    ("t_empty", ("tuple", lambda: ())), ("t_one", ("tuple", lambda: (1,))), ("t_one_s", ("tuple", lambda: ("x",))),
+    ("t_one_pct", ("tuple", lambda: ("%s %r",))), ("t_one_none", ("tuple", lambda: (None,))), ("t_one_t", ("tuple", lambda: ((),))),
+    ("t_two", ("tuple", lambda: (640, 480))), ("t_three", ("tuple", lambda: (1, "b", None))), ("t_nested", ("tuple", lambda: ((0, 0), (1, 1)))),
+    ("t_long", ("tuple", lambda: tuple(range(12)))), ("t_list", ("tuple", lambda: ([], {}))),
+    ("nt_two", ("tuple", lambda: _Point(0, 0))), ("nt_one", ("tuple", lambda: _One(1))), ("nt_nil", ("tuple", lambda: _Nil())),
+    ("t_sub_empty", ("tuple", lambda: _TupleSub())), ("t_sub_one", ("tuple", lambda: _TupleSub([5]))), ("t_sub_two", ("tuple", lambda: _TupleSub([5, 6]))),
+    ("t_sub_repr", ("tuple", lambda: _TupleSubRepr([1]))),
+    # objects with a repr of their own
+    ("r_word", ("custom", lambda: _Repr("Marker"))), ("r_empty", ("custom", lambda: _Repr(""))), ("r_pct", ("custom", lambda: _Repr("%s%r%(a)s%"))),
+    ("r_brace", ("custom", lambda: _Repr("{}{0}{v}"))), ("r_sep", ("custom", lambda: _Repr("a, b=2, *c, **d"))), ("r_paren", ("custom", lambda: _Repr("(1,)"))),
+    ("r_only", ("custom", lambda: _ReprOnly("<only repr>"))), ("r_str", ("custom", lambda: _StrSub("s"))), ("r_int", ("custom", lambda: _IntSub(3))),
+])
 
 
 def build(posonly, pos, va, kwonly, kw, nlocals, with_self):
@@ -52,9 +147,11 @@ def run(lines, out, args):
             ndef = int(f[8])
             kwd = f[9]                        # which keyword-only parameters have defaults: string of 0/1 or '-'
             first = int(f[10])                # id of the first default value
+            vals = f[11].split(",") if len(f) > 11 and f[11] != "-" else []    # value kinds of the defaults ('D': opaque)
             with_self = kind == "M"
             code = build(posonly, pos, va, kwonly, kw, nlocals, with_self)
-            defaults = tuple(Dflt(first + i) for i in range(ndef))
+            ids = [first + i for i in range(ndef)]
+            defaults = tuple(VALUE_KINDS[vals[i]][1]() if i < len(vals) and vals[i] != "D" else Dflt(ids[i]) for i in range(ndef))
             # the function is described once BEFORE it gets its final defaults and attributes (a description must not
             # be remembered per function) ...
             fn = types.FunctionType(code, {}, "f", tuple(Dflt(5000 + i) for i in range(ndef)) or None)
@@ -92,10 +189,17 @@ def run(lines, out, args):
                 m = fromFunction(fn)
                 imlevel = 0
             info = m.getSignatureInfo()
+            try:
+                sigstr = m.getSignatureString()
+            except Exception as e:  # noqa  -- rendering a description must not fail, whatever the defaults are
+                sigstr = "<getSignatureString raised %s: %s>" % (type(e).__name__, str(e)[:80])
             got = "pos=%s req=%s opt=%s var=%s kw=%s str=%s" % (
                 ",".join(info["positional"]), ",".join(info["required"]),
-                ",".join("%s=%r" % (k, v) for k, v in info["optional"].items()), info["varargs"], info["kwargs"],
-                m.getSignatureString())
+                ",".join("%s=%s" % (k, repr(v)) for k, v in info["optional"].items()), info["varargs"], info["kwargs"], sigstr)
+            # the defaults reported must be the function's own objects (identity, not an equal or re-made value)
+            optvals = list(info["optional"].values())
+            if len(optvals) > len(defaults) or any(a is not b for a, b in zip(optvals, defaults[len(defaults) - len(optvals):])):
+                got += " DEFAULTS-NOT-IDENTICAL"
             try:
                 tags = sorted((k, m.getTaggedValue(k)) for k in m.getTaggedValueTags())
                 tags2 = sorted((k, m.queryTaggedValue(k, "absent")) for k in ("answer", "colour", "nothing"))
@@ -103,10 +207,24 @@ def run(lines, out, args):
                 tags = tags2 = "raised %s" % type(e).__name__
             if tags != [("answer", 42), ("colour", "red"), ("nothing", None)] or tags2 != tags:
                 got += " TAGS-WRONG:%r" % (tags,)
-            # the real code object, for the model
+            # the other places the rendered signature is observed at: str() / repr() of the description and the
+            # interface's documentation
+            try:
+                want_tail = ("zi.gen.I.f" if kind == "I" else "f") + sigstr
+                if str(m) != want_tail or not repr(m).endswith(" " + want_tail + ">"):
+                    got += " STR-WRONG:%s" % str(m)[:80]
+                if kind == "I":
+                    from zope.interface.document import asStructuredText
+                    if ("\n  f%s -- no documentation\n" % sigstr) not in asStructuredText(I):
+                        got += " DOC-WRONG"
+            except Exception as e:  # noqa
+                got += " STR-WRONG:raised %s" % type(e).__name__
+            # the real code object, for the model; every default is an id, a named value kind comes with its repr (hex of
+            # the UTF-8 text), which is the model's `reprOf` for that id
             c = fn.__code__
             codeline = "ff %d %d %d %d %d %s %s" % (imlevel, c.co_argcount, c.co_kwonlyargcount, bool(c.co_flags & 4), bool(c.co_flags & 8),
-                                                    ",".join(str(d.k) for d in defaults) or "-", " ".join(c.co_varnames))
+                                                    ",".join(str(n) if isinstance(d, Dflt) else "%d:%s" % (n, repr(d).encode("utf-8").hex())
+                                                             for n, d in zip(ids, defaults)) or "-", " ".join(c.co_varnames))
             # inspect.signature of the same callable
             sig = inspect.signature(target)
             P = inspect.Parameter
@@ -114,10 +232,10 @@ def run(lines, out, args):
             positional = [p for p in ps if p.kind in (P.POSITIONAL_ONLY, P.POSITIONAL_OR_KEYWORD)]
             ins = "pos=%s req=%s opt=%s var=%s kw=%s" % (
                 ",".join(p.name for p in positional), ",".join(p.name for p in positional if p.default is P.empty),
-                ",".join("%s=%r" % (p.name, p.default) for p in positional if p.default is not P.empty),
+                ",".join(p.name + "=" + repr(p.default) for p in positional if p.default is not P.empty),
                 next((p.name for p in ps if p.kind == P.VAR_POSITIONAL), None), next((p.name for p in ps if p.kind == P.VAR_KEYWORD), None))
             want_str = "(%s)" % ", ".join(
-                [p.name if p.default is P.empty else "%s=%r" % (p.name, p.default) for p in positional] +
+                [p.name if p.default is P.empty else p.name + "=" + repr(p.default) for p in positional] +
                 ["*" + p.name for p in ps if p.kind == P.VAR_POSITIONAL] + ["**" + p.name for p in ps if p.kind == P.VAR_KEYWORD])
             out.write("%s || %s || %s str=%s\n" % (got, codeline, ins, want_str))
         except Exception as e:   # noqa
